@@ -22,7 +22,7 @@ eigenvalues and / or eigenvectors) and Coq evaluates, in exact (Gaussian-)ration
     matrices at 1e-9 because the float eigenpair has a residual);
   sparse NON-symmetric: model == implementation as a relation (the returned gA is -v phi^T with v = vp + c phi for a solution vp
   of the TRANSPOSED system); the adjoint identity does not hold there (C01_eig_sparse_*_nonsym_refuted, finding
-  NEW_C01_sparse_eig_nonsymmetric), which the finite-difference comparison of this part reproduces on every run.
+  K08_C01_sparse_eig_nonsymmetric), which the finite-difference comparison of this part reproduces on every run.
 Entry point: run_part(ctx, pym), called from tools/checks/C01.py.
 """
 import time
@@ -608,7 +608,7 @@ def nonsym_case(ctx, pym, rng, n, withB, out):
     ctx.search_evaluations += 1
     if fd is not None and fd['spread'] < 1e-4 and abs(np.real(np.average(phi))) > 1e-3:
         if fd['err'] > 1e-4:
-            ctx.count('eig:nonsym:finding NEW_C01_sparse_eig_nonsymmetric reproduced (finite differences != sensitivity)')
+            ctx.count('eig:nonsym:finding K08_C01_sparse_eig_nonsymmetric reproduced (finite differences != sensitivity)')
             if any(f.get('status') == 'known' and (f['call_site'], f['predicate'], f['input_class']) == NONSYM for f in ctx.findings):
                 ctx.violation('impl-violates', *NONSYM, case, expected=fd['fd'], got=fd['an'])
         else:
@@ -630,7 +630,7 @@ def run_part(ctx, pym):
                         'on (A, B) (implicit function theorem) is NOT proved -- validated by the finite-difference oracle',
                         'EigenSolve (C01d): the model keeps all quantities in one field (real data with real spectrum, or complex data); the '
                         'np.real(...) projection for real matrices with complex eigenpairs is outside the model (oracle only)',
-                        'EigenSolve (C01d): the sparse theorems carry A^T = A, B^T = B (refuted otherwise: finding NEW_C01_sparse_eig_nonsymmetric)']
+                        'EigenSolve (C01d): the sparse theorems carry A^T = A, B^T = B (refuted otherwise: finding K08_C01_sparse_eig_nonsymmetric)']
     ctx.rule += (' (g) EigenSolve sensitivities: dense pencils of 7 classes x seed kinds (eigenvalue-only / eigenvector-only / mixed / '
                  'partial columns), sparse symmetric pencils x options x seed kinds and call histories, sparse non-symmetric pencils; Coq '
                  'checks witnesses of the linear solves, gA/gB == Model/EigAdj formulas and the adjoint identity against an exactly solved '
